@@ -29,9 +29,9 @@ Example wf_multi_example :
   forallb (fun h => forallb (fun u => forallb (fun a => wf_multi (ex_opts true h u a) ex_view) [true; false]) [true; false]) [true; false] = true.
 Proof. vm_compute. reflexivity. Qed.
 
-(* ... and so do those of the one-line theorem (no URL is written) *)
+(* ... and so do those of the one-line theorem, URLs included *)
 Example wf_single_example :
-  forallb (fun h => forallb (fun a => wf_single (ex_opts false h false a) ex_view) [true; false]) [true; false] = true.
+  forallb (fun h => forallb (fun u => forallb (fun a => wf_single (ex_opts false h u a) ex_view) [true; false]) [true; false]) [true; false] = true.
 Proof. vm_compute. reflexivity. Qed.
 
 (* ... and with the format left to the tool (multiline = None), in all eight option sets *)
@@ -47,30 +47,21 @@ Example roundtrip_example :
   load (write (ex_opts true true true true) ex_view) = Ok ex_view.
 Proof. vm_compute. reflexivity. Qed.
 
-(* ---- refuted: one-line output with URLs is rejected by the loader (the view itself is fine:
-   it satisfies the multi-line side conditions) *)
-Lemma single_urls_refuted :
-  exists o v, wf_multi (mkOpts (Some true) (o_hashes o) (o_urls o) (o_annot o) (o_index o) (o_links o)) v = true /\
-              o_multi o = false /\ o_urls o = true /\
-              load (write o v) = Err ENotAnnotated.
-Proof. exists (ex_opts false true true false), ex_view. vm_compute. repeat split; reflexivity. Qed.
-
-(* ---- refuted: one-line output, a first requirer whose name starts with "via": the loader takes the
-   multi-line branch and cuts four characters off - the edge comes back with another requirer *)
-Definition via_view : view := [mkPin "c" "2.0" None None [mkVia "viaduct" [] "" []]].
-Lemma single_via_prefix_refuted :
-  exists o v, wf_multi (mkOpts (Some true) (o_hashes o) (o_urls o) (o_annot o) (o_index o) (o_links o)) v = true /\
-              o_multi o = false /\ o_urls o = false /\
-              load (write o v) = Ok [mkPin "c" "2.0" None None [mkVia "uct" [] "" []]] /\
-              edges [mkPin "c" "2.0" None None [mkVia "uct" [] "" []]] <> edges v.
-Proof.
-  exists (mkOpts (Some false) false false None [] []), via_view. vm_compute. repeat split; try reflexivity. discriminate.
-Qed.
-
-(* ---- refuted: a project whose version is the loader's placeholder "0+missing" (a valid PEP 440
-   version) is dropped from the loaded solution *)
+(* one-line output with URLs, a requirer starting with "via", a version equal to the former placeholder
+   0+missing: all inside the theorems now (they were refuted before the repairs of the loader) *)
+Definition via_view : view := [mkPin "c" "2.0" None None [mkVia "viaduct" [] ">1" []; mkVia "zlib" [] "" []]].
 Definition missing_view : view := [mkPin "a" "0+missing" None None [mkVia "reqs.txt" [] "" []]].
-Lemma placeholder_version_refuted :
-  exists o v, o_multi o = true /\ pin_version ("==" ++ "0+missing") = Ok "0+missing" /\
-              load_entries (write o v) = Ok v /\ load (write o v) = Ok [].
-Proof. exists (mkOpts (Some true) false false None [] []), missing_view. vm_compute. repeat split; reflexivity. Qed.
+Example former_findings_example :
+  wf_single (ex_opts false true true false) ex_view = true /\
+  wf_single (mkOpts (Some false) false false None [] []) via_view = true /\
+  wf_multi (mkOpts (Some true) false false None [] []) missing_view = true /\
+  load (write (mkOpts (Some true) false false None [] []) missing_view) = Ok missing_view.
+Proof. vm_compute. repeat split; reflexivity. Qed.
+
+(* ---- refuted: one-line output without --annotate whose comment starts with the *word* "via" - a
+   requirer literally named `via` followed by a specifier - is read as pip-compile's "# via x" layout *)
+Definition named_via_view : view := [mkPin "c" "2.0" None None [mkVia "via" [] ">1" []]].
+Lemma single_requirer_named_via_refuted :
+  exists o v, wf_multi (mkOpts (Some true) (o_hashes o) (o_urls o) (o_annot o) (o_index o) (o_links o)) v = true /\
+              o_format o = Some false /\ load (write o v) = Err EValue.
+Proof. exists (mkOpts (Some false) false false None [] []), named_via_view. vm_compute. repeat split; reflexivity. Qed.
